@@ -242,6 +242,9 @@ func CheckAlias(r *Run, g string, s *AliasSpec) map[string]any {
 					st.Calls += 2
 					id := fmt.Sprintf("partition=%v,values=%v,variant=%d", part, idx, variant)
 					pat := fmt.Sprint(part)
+					if r.ObsMode() { // C09: the aliased and the distinct-object results under every CPU configuration
+						r.ObserveStr(g, fmt.Sprintf("%s|%s|%v|%v|%s|%s", name, id, pnA != "", pnR != "", DeepDump(rA.Elem().Interface()), DeepDump(rR.Elem().Interface())))
+					}
 					switch {
 					case pnA != "" && pnR != "":
 						// both reject these operands (e.g. length mismatch): nothing to compare
